@@ -8,7 +8,7 @@
    C01_Model.spec_run.  [find_val t l] is the value stored for the sorted word t, [lookup K t] the map's. *)
 From Coq Require Import ZArith List Bool.
 Import ListNotations.
-Require Import Simplex Trie C01_Model C01_Proofs C01_Cofaces.
+Require Import Simplex Trie C01_Model C01_Proofs C01_Cofaces C01_Closure.
 Local Open Scope Z_scope.
 
 (* ---- well-formedness (siblings strictly sorted, recursively) is kept by every mutating routine ---- *)
@@ -258,6 +258,20 @@ Theorem C01_insert_graph_effect : forall vw es,
   (forall u0 v0 w es', es = (u0, v0, w) :: es' -> find_val [Z.min u0 v0; Z.max u0 v0] (ins_graph vw es) <> None).
 Proof. exact graph_agree. Qed.
 Print Assumptions C01_insert_graph_effect.
+
+(* ---- closure: insertion with subfaces, batch vertices, removal of a maximal simplex (no coface), both prunings,
+        clear keep the abstract complex closed under faces and the filtration monotone ([good]); hence the hypothesis
+        [ok_history] of the history theorems follows from the documented preconditions alone ([pre_history]:
+        goodness after the step is asked only of lone insert_simplex and insert_graph, which do not ensure it) ---- *)
+Theorem C01_closed_step : forall K o,
+  good K = true -> NoDup (keys K) -> pre_op K o = true -> closure_op o = true -> good (spec_step K o) = true.
+Proof. exact closed_step. Qed.
+Print Assumptions C01_closed_step.
+
+Theorem C01_preconditions_suffice : forall ops,
+  forallb refined_op ops = true -> pre_history ops = true -> ok_history ops = true.
+Proof. exact pre_history_ok. Qed.
+Print Assumptions C01_preconditions_suffice.
 
 (* ---- stated, not proved in Coq (compared per input by the correspondence run instead) ---- *)
 (* histories that also contain expansion (its algorithm, siblings_expansion, is the subject of C04; here it is
